@@ -1,2 +1,4 @@
 //! Observation library shared by the harness binaries.
 pub mod hexu;
+pub mod obs;
+pub mod codec;
